@@ -153,9 +153,11 @@ def _tlc(module, cfg, meta, env_extra, workers, java_opts, timeout, extra_args=(
     return p.returncode, p.stdout, time.time() - t0
 
 
-def tlc_trace(module, trace, meta, timeout=1800):
+def tlc_trace(module, trace, meta, timeout=1800, big=False):
     """Validates one recorded trace.  Returns accepted flag, violations, breaches."""
-    rc, out, wall = _tlc(module + ".tla", module + ".cfg", meta, {"TRACE": trace}, 1, JAVA_OPTS_TRACE, timeout)
+    opts = JAVA_OPTS_TRACE.replace("-Xmx4g", "-Xmx14g") if big else JAVA_OPTS_TRACE      # million-key reference states
+    rc, out, wall = _tlc(module + ".tla", module + ".cfg", meta, {"TRACE": trace}, 1, opts, timeout,
+                         extra_args=("-maxSetSize", "4000000") if big else ())
     viols, breaches, other, drift = [], [], [], []
     accepted = None
     for ln in out.splitlines():
